@@ -16,11 +16,18 @@ Numbered(s) == [i \in DOMAIN s |-> [n |-> 10 * i, ace |-> s[i]]]
 AclOf(j)   == [n \in DOMAIN j.acls |-> Numbered(j.acls[n])]
 IntfOf(j)  == [i \in DOMAIN j.intfs |-> [vrf |-> j.intfs[i].vrf, in |-> j.intfs[i].in, out |-> j.intfs[i].out]]
 RouteOf(j) == ToSet(j.routes)
+\* crypto maps are optional in the JSON of a configuration (families without VPN omit them)
+CmapOf(j)  == IF "cmaps" \in DOMAIN j
+              THEN [k \in DOMAIN j.cmaps |-> [name |-> j.cmaps[k].name, seq |-> j.cmaps[k].seq, peers |-> ToSet(j.cmaps[k].peers),
+                                               fin |-> j.cmaps[k].fin, fout |-> j.cmaps[k].fout]]
+              ELSE <<>>
+IfcmOf(j)  == [i \in DOMAIN j.intfs |-> IF "ifcm" \in DOMAIN j /\ i \in DOMAIN j.ifcm THEN j.ifcm[i] ELSE ""]
 
 TInit ==
   /\ l = 1 /\ i0 = 1 /\ errl = 0 /\ nchg = 0 /\ moved = {}
   /\ Trace[1].ev = "Init"
   /\ acl = AclOf(Trace[1].dev) /\ intf = IntfOf(Trace[1].dev) /\ route = RouteOf(Trace[1].dev)
+  /\ cmap = CmapOf(Trace[1].dev) /\ ifcm = IfcmOf(Trace[1].dev)
   /\ mode = Top /\ err = ""
 
 IsChange(e) == e.ev \notin {"Init", "Resume", "Done"}
@@ -38,6 +45,11 @@ Dispatch(e) ==
     [] e.ev = "IntfUnbind" -> IntfUnbind(e.n, e.dir)
     [] e.ev = "RouteAdd"   -> RouteAdd(e.r)
     [] e.ev = "RouteDel"   -> RouteDel(e.r)
+    [] e.ev = "CmEnter"    -> CmEnter(e.k, e.name, e.seq)
+    [] e.ev = "CmDelete"   -> CmDelete(e.k)
+    [] e.ev = "CmPeer"     -> CmPeer(e.p, e.no)
+    [] e.ev = "CmFilter"   -> CmFilter(e.n, e.dir, e.no)
+    [] e.ev = "IntfCm"     -> IntfCm(e.name, e.no)
     [] e.ev = "Exit"       -> Exit
     [] e.ev = "Resume"     -> Resume
     [] e.ev = "Done"       -> UNCHANGED dvars
@@ -49,6 +61,7 @@ TNext ==
   /\ l' = l + 1
   /\ IF Ev.ev = "Init"
      THEN /\ acl' = AclOf(Ev.dev) /\ intf' = IntfOf(Ev.dev) /\ route' = RouteOf(Ev.dev)
+          /\ cmap' = CmapOf(Ev.dev) /\ ifcm' = IfcmOf(Ev.dev)
           /\ mode' = Top /\ err' = ""
           /\ i0' = l + 1 /\ errl' = 0 /\ nchg' = 0 /\ moved' = {}
      ELSE /\ Dispatch(Ev)
@@ -90,26 +103,48 @@ DirEquiv(i, dir) ==
   IF t = "" THEN c = ""
   ELSE c # "" /\ c \in DOMAIN acl /\ Canon(Aces(c)) = Canon(TAces(t))
 
+\* crypto maps: the entries of the map bound to the interface, matched by peer; sequence numbers and
+\* names are free; a filter ACL is compared by what it filters
+TCmap == CmapOf(T)    TIfcm == IfcmOf(T)    DCmap == CmapOf(D0)   DIfcm == IfcmOf(D0)
+FilterNow(n) == IF n = "" THEN <<>> ELSE IF n \in DOMAIN acl THEN <<Canon(Aces(n))>> ELSE << <<[act |-> "?", set |-> {}]>> >>
+FilterTgt(n) == IF n = "" THEN <<>> ELSE <<Canon(TAces(n))>>
+EntriesNow(name) == {[peers |-> cmap[k].peers, fin |-> FilterNow(cmap[k].fin), fout |-> FilterNow(cmap[k].fout)] :
+                       k \in {x \in DOMAIN cmap : cmap[x].name = name}}
+EntriesTgt(name) == {[peers |-> TCmap[k].peers, fin |-> FilterTgt(TCmap[k].fin), fout |-> FilterTgt(TCmap[k].fout)] :
+                       k \in {x \in DOMAIN TCmap : TCmap[x].name = name}}
+CryptoEquiv(i) ==
+  IF TIfcm[i] = "" THEN ifcm[i] = ""
+  ELSE ifcm[i] # "" /\ EntriesNow(ifcm[i]) = EntriesTgt(TIfcm[i])
+
 Equivalent ==
-  /\ \A i \in KnownIntfs : i \in DOMAIN intf /\ DirEquiv(i, "in") /\ DirEquiv(i, "out")
+  /\ \A i \in KnownIntfs : i \in DOMAIN intf /\ DirEquiv(i, "in") /\ DirEquiv(i, "out") /\ CryptoEquiv(i)
   /\ \A v \in TVrfs : {r \in route : r.vrf = v} = {r \in TRoute : r.vrf = v}
 
 -----------------------------------------------------------------------------
 (* Frame (C07) *)
-BaseNames == {"E0_in", "E1_in", "E0_out", "a1", "a2", "foreign", "spare", "E3_in"}
+BaseNames == {"E0_in", "E1_in", "E0_out", "a1", "a2", "foreign", "spare", "E3_in", "VPN",
+              "cf1in", "cf1out", "cf2in", "cf2out", "cf3in", "cf3out"}
 GeneratedNames == {b \o "-DRC-" \o i : b \in BaseNames, i \in {"0", "1", "2", "3"}}
 IsGenerated(n) == n \in GeneratedNames
 
 ManagedIntfs0 == {i \in DOMAIN DIntf : i \in KnownIntfs /\ (TVrfsAll = {} \/ DIntf[i].vrf \in TVrfsAll)}
 UnmIntfs0     == (DOMAIN DIntf) \ ManagedIntfs0
 AclsOfIntfs(S) == {Bound(DIntf, i, d) : i \in S, d \in {"in", "out"}} \ {""}
+\* crypto map entries outside Netspoc's scope: their map is not bound to a managed interface and is
+\* bound to an unmanaged one or hand-named
+ManagedCmNames0 == {DIfcm[i] : i \in ManagedIntfs0} \ {""}
+UnmCm0 == {k \in DOMAIN DCmap : /\ DCmap[k].name \notin ManagedCmNames0
+                                /\ (DCmap[k].name \in {DIfcm[i] : i \in UnmIntfs0} \/ ~IsGenerated(DCmap[k].name))}
+FiltersOf(S) == UNION {{DCmap[k].fin, DCmap[k].fout} : k \in S} \ {""}
+ManagedAcls0 == AclsOfIntfs(ManagedIntfs0) \cup FiltersOf({k \in DOMAIN DCmap : DCmap[k].name \in ManagedCmNames0})
 \* ACLs outside Netspoc's scope: bound to unmanaged interfaces, or hand-named and not bound to a managed one
-UnmAcls0 == (AclsOfIntfs(UnmIntfs0) \cup {n \in DOMAIN D0.acls : ~IsGenerated(n) /\ n \notin AclsOfIntfs(ManagedIntfs0)})
+UnmAcls0 == (AclsOfIntfs(UnmIntfs0) \cup FiltersOf(UnmCm0) \cup {n \in DOMAIN D0.acls : ~IsGenerated(n) /\ n \notin ManagedAcls0})
             \cap DOMAIN D0.acls
 
 FrameViol ==
   IF \E n \in UnmAcls0 : n \notin DOMAIN acl \/ Aces(n) # DAces(n) THEN "access-list outside Netspoc's scope changed"
-  ELSE IF \E i \in UnmIntfs0 : i \notin DOMAIN intf \/ intf[i] # DIntf[i] THEN "unmanaged interface changed"
+  ELSE IF \E i \in UnmIntfs0 : i \notin DOMAIN intf \/ intf[i] # DIntf[i] \/ ifcm[i] # DIfcm[i] THEN "unmanaged interface changed"
+  ELSE IF \E k \in UnmCm0 : k \notin DOMAIN cmap \/ cmap[k] # DCmap[k] THEN "crypto map outside Netspoc's scope changed"
   ELSE IF \E r \in DRoute : r.vrf \notin TVrfs /\ r \notin route THEN "route of unspecified VRF removed"
   ELSE IF \E r \in route : r.vrf \notin TVrfs /\ r \notin DRoute THEN "route of unspecified VRF added"
   ELSE ""
@@ -118,7 +153,7 @@ FrameViol ==
 KF_SharedAclEdit ==
   /\ FrameViol = "access-list outside Netspoc's scope changed"
   /\ \A n \in UnmAcls0 : (n \notin DOMAIN acl \/ Aces(n) # DAces(n))
-        => (n \in DOMAIN acl /\ n \in AclsOfIntfs(ManagedIntfs0))
+        => (n \in DOMAIN acl /\ n \in ManagedAcls0)
 
 -----------------------------------------------------------------------------
 (* StepSafe (C14) *)
@@ -161,6 +196,13 @@ LogVariant(o, n) == \E i \in DOMAIN o, j \in DOMAIN n : SameLine(o[i], n[j]) /\ 
 KF_Cosmetic ==
   IF \E s \in SafeSlots : HasRemark(OldOf(s)) \/ HasRemark(NewOf(s)) THEN "IosRemark" ELSE ""
 
+\* known finding (C10): the cut fell between `crypto map NAME SEQ ipsec-isakmp` and `set peer`: the device
+\* holds an incomplete entry and the resumed run aborts with "Missing peer or dynamic in crypto map"
+KF_Resume ==
+  IF /\ l > 1 /\ Trace[l - 1].ev = "Resume" /\ LastEv.n2 = -1
+     /\ \E k \in DOMAIN cmap : cmap[k].peers = {}
+  THEN "IosCryptoIncompleteEntry" ELSE KF_Cosmetic
+
 RouteUnsafe ==
   \E v \in TVrfs : \E r \in DRoute : /\ r.vrf = v /\ (\E q \in TRoute : q.vrf = v /\ q.dst = r.dst)
                                      /\ ~\E c \in route : c.vrf = v /\ c.dst = r.dst
@@ -174,6 +216,7 @@ MergeOK == Admissible(MergedAcl, T.parts.v4, T.parts.v6, T.parts.pre, T.parts.ap
 Post(j) ==
   /\ DOMAIN acl = DOMAIN j.acls /\ \A n \in DOMAIN acl : Aces(n) = j.acls[n]
   /\ intf = IntfOf(j) /\ route = RouteOf(j)
+  /\ cmap = CmapOf(j) /\ ifcm = IfcmOf(j)
 
 Chk(ok, tag, detail, kf) == ok \/ PrintT(<<"VERR", LastEv.t, l, tag, detail, kf>>)
 
@@ -187,8 +230,8 @@ Mon ==
   /\ Chk(LastEv.ev \in {"Resume", "Done"} => Post(LastEv.post), "HARNESS", "post state of replica differs", "")
   /\ Chk(LastEv.ev = "Done" /\ IsMerge => MergeOK, "C18",
          IF IsMerge THEN Why(MergedAcl, T.parts.v4, T.parts.v6, T.parts.pre, T.parts.app) ELSE "", "")
-  /\ Chk(LastEv.ev = "Done" /\ ~IsMerge => Equivalent, "EQUIV", IF nchg = 0 THEN "unchanged" ELSE "final", KF_Cosmetic)
-  /\ Chk(LastEv.ev = "Done" => LastEv.n2 = 0, "FIXPOINT", "second compare reports changes", KF_Cosmetic)
+  /\ Chk(LastEv.ev = "Done" /\ ~IsMerge => Equivalent, "EQUIV", IF nchg = 0 THEN "unchanged" ELSE "final", KF_Resume)
+  /\ Chk(LastEv.ev = "Done" => LastEv.n2 = 0, "FIXPOINT", "second compare reports changes", KF_Resume)
 
 Accepted == TLCGet("stats").diameter = Len(Trace)
 =============================================================================
